@@ -25,6 +25,8 @@ type Family struct {
 	// Recorded: executions are not repeatable (goroutine schedules); a rejected
 	// trace is kept verbatim as the evidence instead of being regenerated.
 	Recorded bool
+	// ClassifyCrashes: the class of a crash always comes from Classify (in the parent).
+	ClassifyCrashes bool
 }
 
 // Verdict is a child's answer for one request.
@@ -129,7 +131,7 @@ func (r *Run) handle(f *Family, res Result, col *Collector) {
 	}
 	if v.Panic != "" {
 		class := v.Class
-		if class == "" && f.Classify != nil {
+		if f.Classify != nil && (class == "" || f.ClassifyCrashes) {
 			class = f.Classify(kind, body)
 		}
 		r.Fail(Candidate{Family: f.Name, Class: class, Sig: "crash:panic:" + v.Frame, Case: json.RawMessage(jsonOrString(res.Req)), Detail: "panic: " + v.Panic})
